@@ -17,6 +17,7 @@ transposeResult_id transposeResult_comp
 equivalentPauli_spec equivalentPauli_set remapPauli_spec remapPauli_perm insertSubscripts_slots
 insertSubscripts_slotFactors insertSubscripts_consistent splitInsertIndex_formula
 splitInsertIndex_bookkeeping'''.split()
+PINS = ['pinTensorInsert', 'pinTensorMerge', 'pinTensorTranspose']
 GEN_SITES = ['einsum:util_tensor_call0', 'einsum:util_tensor_insert_call0',
              'einsum:util_tensor_merge_call0']
 COMPONENTS = ['tensor_insert', 'tensor_merge', 'tensor_transpose', 'pauli_index_maps']
@@ -47,7 +48,7 @@ def ilist(xs):
 def run_case(rng, kind, c, pos, n, rank, bshape=()):
     """returns (request line, impl outcome) ; outcome = ('ok', array) | ('err', class)"""
     dims_c = DIMS[:c]
-    dims_i = [7, 6][:n]
+    dims_i = ([7, 6] + [2]*n)[:n] if n <= 6 else [2]*n
     ch = factors(rng, dims_c, rank, bshape)
     ins = factors(rng, dims_i, rank, bshape)
     arr = util.tensor(*ch, rank=rank)
@@ -117,6 +118,20 @@ def requests(tier, rng):
                 orders = [orders[i] for i in rng.choice(len(orders), 40, replace=False)]
             for o in orders:
                 reqs.append(('ttranspose', c, o, 0, 2))
+    # many inserted factors at repeated positions (ties must keep the given order, whatever the
+    # sorting routine does for longer inputs: 3..6 and 17..20 factors)
+    for j in range(24 if tier == 'quick' else 300):
+        c = int(rng.integers(1, 4))
+        big = j % 6 == 5
+        n = int(rng.integers(17, 21)) if big else int(rng.integers(3, 7))
+        rank = 1 if big or rng.random() < 0.5 else 2
+        if big:
+            c = 1
+        if rank == 2:
+            n, c = min(n, 4), min(c, 2)
+        vals = rng.integers(-c, c + 1, int(rng.integers(1, 3)))
+        pos = tuple(int(x) for x in rng.choice(vals, n))
+        reqs.append((str(rng.choice(['tinsert', 'tmerge'])), c, pos, n, rank))
     # wrong-length position lists
     reqs.append(('tmerge', 2, (0, 1, 2), 2, 2))
     reqs.append(('tmerge', 2, (0,), 2, 2))
@@ -124,8 +139,8 @@ def requests(tier, rng):
     return reqs
 
 
-def correspondence(ctx):
-    rng = ctx.rng('corr')
+def correspondence(ctx, salt='corr'):
+    rng = ctx.rng(salt)
     reqs = requests(ctx.tier, rng)
     lines = [predicted(*r) for r in reqs]
     outs = driver(lines)
@@ -267,10 +282,9 @@ def search(ctx, deep=False):
             idx = sorted(rng.choice(N, k, replace=False).tolist())
             check_pauli_maps(ctx, {'N': N, 'idx': idx, 'perm': rng.permutation(N).tolist()})
     if deep:
-        # heavier enumeration of the helpers through the correspondence path
-        old = ctx.tier
-        ctx.tier = 'thorough'
-        try:
-            correspondence(ctx)
-        finally:
-            ctx.tier = old
+        # another (thorough tier: exhaustive) enumeration of the helpers through the correspondence
+        # path, with fresh random position lists
+        for k in range(3):
+            correspondence(ctx, salt=f'deep{k}')
+            if ctx.failures:
+                break
